@@ -45,6 +45,9 @@ type c03Reader struct {
 	data    []byte
 	pos     int
 	postEOF int
+	// endErr: the input ends with a read error that is not io.EOF and is reported at every further read,
+	// as a gzip reader does on a truncated file (io.ErrUnexpectedEOF)
+	endErr bool
 }
 
 func (r *c03Reader) Read(p []byte) (int, error) {
@@ -56,6 +59,9 @@ func (r *c03Reader) Read(p []byte) (int, error) {
 	r.postEOF++
 	if r.postEOF > c03MaxPostEOF {
 		panic(c03LivelockMsg + c03LoopSite())
+	}
+	if r.endErr {
+		return 0, io.ErrUnexpectedEOF
 	}
 	return 0, io.EOF
 }
@@ -122,6 +128,9 @@ type c03Case struct {
 	In     string `json:"in"` // the input bytes as a Go quoted string (exact for any byte)
 	// Seed is set for an unmodified seed file known to hold an alignment.
 	Seed bool `json:"seed,omitempty"`
+	// EndErr: the reader answers every read past the input with io.ErrUnexpectedEOF instead of io.EOF
+	// (a truncated compressed file)
+	EndErr bool `json:"end_with_read_error,omitempty"`
 }
 
 func (cs c03Case) op() string {
@@ -458,7 +467,7 @@ func (k *c03Checker) count(what string, declared int64, got int, dropsAllowed bo
 func (k *c03Checker) run() string {
 	c, cs := k.c, k.cs
 	c.Eval()
-	rd := &c03Reader{data: k.in}
+	rd := &c03Reader{data: k.in, endErr: cs.EndErr}
 	var res c03Result
 	pn, msg, exited := mc.GuardExit(func() { res = c03Call(cs, rd) })
 	switch {
@@ -747,7 +756,7 @@ func c03Replay(c *mc.Ctx, payload json.RawMessage) {
 	if cs.All && cs.Entry == "" {
 		for _, f := range c03Formats() {
 			if f.Name == cs.Format {
-				f.checkAll(c, s, cs.Seed)
+				f.checkAllEnd(c, s, cs.Seed, cs.EndErr)
 				return
 			}
 		}
